@@ -614,17 +614,18 @@ Fixpoint has_loop (tr : list event) : bool :=
 (** [n] is the number of the property; [ls] the label stream (latest first) *)
 Definition check_prop (n : N) (e : env) (tr : list event) (ls : list label) : bool :=
   match n with
-  | 1 => if has_skip tr || has_panic tr then true else chk_C01 e tr
+  | 1 => chk_C01_nodup e tr && (if has_skip tr || has_panic tr then true else chk_C01_noloss e tr)
   | 2 => chk_C02 e tr
   | 3 => chk_C03 e tr
-  | 4 => if has_panic tr then true else chk_C04 e tr
+  | 4 => chk_C01_nodup e tr && chk_C04_order e tr && (if has_panic tr then true else chk_C04_prefix e tr)
   | 5 => chk_C05 e tr
-  | 6 => if has_skip tr && negb (has_panic tr) then chk_C06 e tr else true
+  | 6 => chk_C06 e tr
   | 7 => chk_C07 ls
   | 8 => chk_C08 e tr
   | 10 => chk_C10 e tr
   | 11 => chk_C11 e tr
-  | 12 => if has_loop tr && negb (has_skip tr || has_panic tr) then chk_C12 e tr else true
+  | 12 => chk_C12_shape tr && chk_C01_nodup e tr && chk_C02 e tr && chk_C05 e tr
+          && (if has_skip tr || has_panic tr then true else chk_C01_noloss e tr)
   | 16 => chk_C16 e tr && chk_C02 e tr && chk_C03 e tr && chk_C01_nodup e tr
   | 17 => chk_no_panic tr
   | _ => true
